@@ -165,9 +165,6 @@ func oracleRAfrom(r *lib.Run, msg []byte, rt icmp_spoofer.Router, ethSrc []byte,
 	r.Stat("oracle.checked", 1)
 	replay := "ra ret " + hx(msg)
 	bad := func(key, what string) {
-		if where != "" && strings.HasSuffix(key, "-multiple") {
-			return // recorded once by the single-RA check
-		}
 		r.Viol(key, what+" (RA "+hx(msg)+") "+where, replay)
 	}
 	sec := func(d time.Duration) uint32 { return uint32(d / time.Second) }
@@ -197,56 +194,64 @@ func oracleRAfrom(r *lib.Run, msg []byte, rt icmp_spoofer.Router, ethSrc []byte,
 	if !pok {
 		bad("oracle-prefix", "prefix list differs: "+showPfx(rt.Prefixes))
 	}
-	// options that may repeat: the record holds one of each
+	// options that may repeat: every one is recorded in packet order; the single fields keep the last
+	rok := len(rt.Options.Routes) == len(ra.routes)
+	for i := 0; rok && i < len(ra.routes); i++ {
+		a, w := rt.Options.Routes[i], ra.routes[i]
+		rok = int(a.PrefixLength) == w.pl && int(a.Preference) == w.prf && sec(a.RouteLifetime) == w.life && bytes.Equal(a.Prefix, w.prefix)
+	}
+	if !rok {
+		bad("oracle-route", "route information options not recorded as advertised: "+showRIs(rt.Options.Routes))
+	}
 	ri := rt.Options.RouteInformation
-	switch {
-	case len(ra.routes) == 0:
+	if len(ra.routes) == 0 {
 		if ri.Prefix != nil {
 			bad("oracle-route", "route information recorded without a route option")
 		}
-	default:
-		w := ra.routes[len(ra.routes)-1]
-		if int(ri.PrefixLength) != w.pl || int(ri.Preference) != w.prf || sec(ri.RouteLifetime) != w.life || !bytes.Equal(ri.Prefix, w.prefix) {
-			bad("oracle-route", "the last route option is not recorded as advertised: "+showRI(ri)+" "+showRIP(ri))
+	} else if w := ra.routes[len(ra.routes)-1]; int(ri.PrefixLength) != w.pl || int(ri.Preference) != w.prf || sec(ri.RouteLifetime) != w.life || !bytes.Equal(ri.Prefix, w.prefix) {
+		bad("oracle-route", "the last route option is not in RouteInformation: "+showRI(ri)+" "+showRIP(ri))
+	}
+	dok := len(rt.Options.RDNSSList) == len(ra.rdnss)
+	var all [][]byte
+	for i := 0; dok && i < len(ra.rdnss); i++ {
+		a, w := rt.Options.RDNSSList[i], ra.rdnss[i]
+		dok = sec(a.Lifetime) == w.life && len(a.Servers) == len(w.servers)
+		for j := 0; dok && j < len(w.servers); j++ {
+			dok = bytes.Equal(a.Servers[j], w.servers[j])
 		}
-		if len(ra.routes) > 1 {
-			bad("ri-multiple", fmt.Sprintf("%d route information options advertised, one recorded", len(ra.routes)))
-		}
+		all = append(all, w.servers...)
 	}
 	rd := rt.Options.RDNSS
-	switch {
-	case len(ra.rdnss) == 0:
-		if len(rd.Servers) != 0 || rd.Lifetime != 0 {
-			bad("oracle-rdnss", "RDNSS recorded without an RDNSS option")
+	if dok && len(ra.rdnss) > 0 {
+		dok = sec(rd.Lifetime) == ra.rdnss[len(ra.rdnss)-1].life && len(rd.Servers) == len(all)
+		for j := 0; dok && j < len(all); j++ {
+			dok = bytes.Equal(rd.Servers[j], all[j])
 		}
-	case len(ra.rdnss) == 1:
-		ok := sec(rd.Lifetime) == ra.rdnss[0].life && len(rd.Servers) == len(ra.rdnss[0].servers)
-		for i := 0; ok && i < len(rd.Servers); i++ {
-			ok = bytes.Equal(rd.Servers[i], ra.rdnss[0].servers[i])
+	} else if dok {
+		dok = len(rd.Servers) == 0 && rd.Lifetime == 0
+	}
+	if !dok {
+		bad("oracle-rdnss", "RDNSS options not recorded as advertised: "+showRDs(rt.Options.RDNSSList)+" / "+showRD(rd))
+	}
+	sok := len(rt.Options.DNSSearchLists) == len(ra.dnssl)
+	for i := 0; sok && i < len(ra.dnssl); i++ {
+		a, w := rt.Options.DNSSearchLists[i], ra.dnssl[i]
+		sok = sec(a.Lifetime) == w.life && len(a.DomainNames) == len(w.names)
+		for j := 0; sok && j < len(w.names); j++ {
+			sok = a.DomainNames[j] == w.names[j]
 		}
-		if !ok {
-			bad("oracle-rdnss", "RDNSS option not recorded as advertised: "+showRD(rd))
-		}
-	default:
-		bad("rdnss-multiple", fmt.Sprintf("%d RDNSS options advertised, one lifetime recorded", len(ra.rdnss)))
 	}
 	ds := rt.Options.DNSSearchList
-	switch {
-	case len(ra.dnssl) == 0:
-		if len(ds.DomainNames) != 0 || ds.Lifetime != 0 {
-			bad("oracle-dnssl", "DNSSL recorded without a DNSSL option")
-		}
-	default:
+	if sok && len(ra.dnssl) > 0 {
 		w := ra.dnssl[len(ra.dnssl)-1]
-		ok := sec(ds.Lifetime) == w.life && len(ds.DomainNames) == len(w.names)
-		for i := 0; ok && i < len(w.names); i++ {
-			ok = ds.DomainNames[i] == w.names[i]
+		sok = sec(ds.Lifetime) == w.life && len(ds.DomainNames) == len(w.names)
+		for j := 0; sok && j < len(w.names); j++ {
+			sok = ds.DomainNames[j] == w.names[j]
 		}
-		if !ok {
-			bad("oracle-dnssl", "the last DNSSL option is not recorded as advertised: "+showDS(ds))
-		}
-		if len(ra.dnssl) > 1 {
-			bad("dnssl-multiple", fmt.Sprintf("%d DNSSL options advertised, one recorded", len(ra.dnssl)))
-		}
+	} else if sok {
+		sok = len(ds.DomainNames) == 0 && ds.Lifetime == 0
+	}
+	if !sok {
+		bad("oracle-dnssl", "DNSSL options not recorded as advertised: "+showDSs(rt.Options.DNSSearchLists)+" / "+showDS(ds))
 	}
 }
